@@ -425,6 +425,20 @@ def scenarios(tier="quick"):
     s, _ = _pre(); s.put(Hh, "0123456789abcdefgh\n"); s.start(); s.write(7, Hh); s.timeout(); s.append(Hh, "ijklm\n"); s.tick(1); s.write(7, Hh)
     add("drain_history_19_25", s, ["timeout"])
 
+    # a history path whose remembered position is gone (the volatile directory was lost, or it was never stored) and
+    # whose first version name is taken by what an earlier life stored: the old version stays, the new one goes next to it
+    s, _ = _pre(); s.put(Hh, "line1\n"); s.put(R + "/k/store/hist.log/v1000000.log", "stored in an earlier life"); s.start(); s.write(7, Hh)
+    add("drain_history_collision", s, ["timeout"])
+
+    # a path that WAS append-only history (a position is remembered for it) and is an ordinary included file under the
+    # configuration now in force: it is rewritten as a whole and copied as a whole
+    FH = WATCH + "/hd/notes.log"
+    s, cfg = _pre(base_cfg(deb=0, history=[WATCH + "/hist.log", WATCH + "/hd"])); s.put(FH, "the first life of this file\n"); s.start(); s.write(7, FH); s.timeout(); s.tick(1)
+    import copy as _c0
+    c0 = _c0.deepcopy(cfg); c0.history = [WATCH + "/hist.log"]; c0.included = list(c0.included) + [WATCH + "/hd"]
+    s.config(c0); s.write(1, CFG_PATH); s.put(FH, "rewritten as a whole, and longer than it was before\n"); s.write(7, FH)
+    add("drain_former_history", s, ["timeout"])
+
     s, _ = _pre(); s.put(P1, "int main;"); s.put(P2, "readme"); s.start(); s.exec(7, X + "/vim"); s.write(7, P1); s.write(7, P2)
     add("drain_project", s, ["timeout"])
 
@@ -917,7 +931,8 @@ def gen_journal_case(rng):
     s = Script()
     setup_world(s, cfg)
     s.start()
-    files = [WATCH + "/inc/a.txt", WATCH + "/n", WATCH + "/hist.log", WATCH + "/proj/m.c"]
+    # (projects at two depths: a configured root directly in the watched directory, a child of a project parent)
+    files = [WATCH + "/inc/a.txt", WATCH + "/n", WATCH + "/hist.log", WATCH + "/proj/m.c", WATCH + "/pp/p1/sub/g.c"]
     ncalls = 0
     for _ in range(rng.randint(5, 20)):
         r = rng.random()
